@@ -1,4 +1,5 @@
 import Zeno.Proofs.Reactor
+import Zeno.Proofs.ReactorFine
 import Zeno.Gen.Reactor
 /-!
 # C12 — reactor: bounded in-flight seeds, exact token accounting, no deadlock
@@ -98,5 +99,50 @@ def sampleOps : List Op :=
 example : DiscRun G R.init sampleOps ∧ (run G R.init sampleOps).held = ["b"] ∧
     (run G R.init sampleOps).tokens = 1 := by
   decide
+
+/-! ## under concurrent callers
+
+`ReactorFine` (Model/ReactorFine.lean) splits each API call into the operations the source performs, in the order read from
+the source (`G.insertSeq`, `G.finishSeq`), and lets any number of calls interleave between them (`Act.step i` = the i-th call
+in flight performs its next operation; `Act.call` = another goroutine enters; `Act.deliver` = `run` forwards a seed). -/
+open Zeno.Model.ReactorFine
+
+theorem seq_ok : okSeq G = true := by decide
+
+/-- **Every interleaving.** After any schedule of any number of concurrent inserts, finishes and feedbacks — as long as no
+caller inserted a seed that was already tracked — the tokens in use equal the tracked seeds plus the calls that are between
+their two operations (an insert holding its token but not yet stored; a finish that removed the entry but has not yet given
+the token back); they never exceed the configured number, and no seed is tracked twice. -/
+theorem c12_tokens_under_any_interleaving (cap : Nat) (acts : List Act) (hd : (Zeno.Model.ReactorFine.run G { cap := cap } acts).dead = false) :
+    let s := Zeno.Model.ReactorFine.run G { cap := cap } acts
+    s.tokens = s.table.length + extra G s ∧ s.tokens ≤ cap ∧ s.table.Nodup ∧ s.table.length ≤ cap := by
+  have h := inv_run G seq_ok acts { cap := cap } (inv_init G cap) hd
+  have hc : (Zeno.Model.ReactorFine.run G { cap := cap } acts).cap = cap := run_cap G acts _
+  have hb := h.bound
+  rw [hc] at hb
+  exact ⟨h.acct, hb, h.nodup, by have := h.acct; omega⟩
+
+/-- … so at every moment when no call is in flight, the tokens in use are exactly the tracked seeds. -/
+theorem c12_quiescent_tokens_eq_tracked (cap : Nat) (acts : List Act) (hd : (Zeno.Model.ReactorFine.run G { cap := cap } acts).dead = false)
+    (hq : (Zeno.Model.ReactorFine.run G { cap := cap } acts).calls = []) :
+    (Zeno.Model.ReactorFine.run G { cap := cap } acts).tokens = (Zeno.Model.ReactorFine.run G { cap := cap } acts).table.length := by
+  have h := (c12_tokens_under_any_interleaving cap acts hd).1
+  simp only [extra, hq, List.countP_nil, Nat.add_zero] at h
+  exact h
+
+/-- non-vacuity, and the two orders the source must not have: two overlapping finishes of one seed are harmless with
+`LoadAndDelete` — and give a token back twice with a separate `Load` and `Delete`; storing the seed before holding a token
+lets more seeds be tracked than there are tokens. -/
+theorem c12_fine_examples :
+    let ins2 : List Act := [.call (.ins "a" 0), .call (.ins "b" 0), .step 0, .step 1, .step 0, .step 1, .step 0, .step 1, .step 0, .step 0]
+    let fin2 : List Act := [.call (.fin "a" 0 false), .call (.fin "a" 0 false), .step 0, .step 1, .step 0, .step 1, .step 0, .step 1, .step 0, .step 0]
+    let good := Zeno.Model.ReactorFine.run G { cap := 2 } (ins2 ++ fin2)
+    let bad := Zeno.Model.ReactorFine.run { G with finishSeq := ["load", "delete", "release"] } { cap := 2 } (ins2 ++ fin2)
+    let early := Zeno.Model.ReactorFine.run { G with insertSeq := ["loadOrStore", "acquire", "enqueue"] } { cap := 1 }
+      [.call (.ins "a" 0), .call (.ins "b" 0), .step 0, .step 1, .step 0]
+    (good.tokens, good.table, good.calls) = (1, ["b"], []) ∧
+    (bad.tokens, bad.table, bad.calls) = (0, ["b"], []) ∧
+    (early.tokens, early.table.length, early.cap) = (1, 2, 1) := by
+  decide +kernel
 
 end Zeno.Props.C12
